@@ -51,9 +51,13 @@ type pair struct {
 	viaConn   []bool
 	recvMode  int // 0 reuse one Packet, 1 fresh each, 2 pre-filled
 	recvSalt  int
-	link      *simnet.Link
-	got       []pk.Packet // retained values (fresh mode)
-	big       bool
+	// after packet switchAt-1 both ends change the threshold to threshold2 (as
+	// the login's Set Compression does); 0 = no switch
+	switchAt   int
+	threshold2 int
+	link       *simnet.Link
+	got        []pk.Packet // retained values (fresh mode)
+	big        bool
 }
 
 //go:norace
@@ -106,6 +110,11 @@ func drawPair(tp *tape.Tape, name string, tag int, maxPkts int) *pair {
 	}
 	p.recvMode = tp.Choose(3)
 	p.recvSalt = tp.Choose(30)
+	if len(p.pkts) >= 2 && tp.Bool(1, 4) {
+		p.switchAt = 1 + tp.Choose(len(p.pkts)-1)
+		p.threshold2 = gen.Threshold(tp, false)
+		pThresholdSwitch.Hit()
+	}
 	return p
 }
 
@@ -141,12 +150,19 @@ func scenarioStream(c *harness.Ctx) {
 				conn := mcnet.WrapConn(p.link.A)
 				conn.SetThreshold(p.threshold)
 				for j, s := range p.pkts {
+					th := p.threshold
+					if p.switchAt > 0 && j >= p.switchAt {
+						th = p.threshold2
+						if j == p.switchAt {
+							conn.SetThreshold(th)
+						}
+					}
 					var err error
 					if p.viaConn[j] {
 						err = conn.WritePacket(pk.Packet{ID: s.id, Data: s.data})
 					} else {
 						q := pk.Packet{ID: s.id, Data: s.data}
-						err = q.Pack(p.link.A, p.threshold)
+						err = q.Pack(p.link.A, th)
 					}
 					if err != nil {
 						c.Fail("frame.pack", "pack", "error", "%s: packing packet %d (id=%d len=%d threshold=%d) failed: %v", p.name, j, s.id, len(s.data), p.threshold, err)
@@ -187,11 +203,18 @@ func scenarioStream(c *harness.Ctx) {
 						}
 						q = &pk.Packet{ID: 0x55, Data: buf}
 					}
+					th := p.threshold
+					if p.switchAt > 0 && j >= p.switchAt {
+						th = p.threshold2
+						if j == p.switchAt {
+							conn.SetThreshold(th)
+						}
+					}
 					var err error
 					if j%2 == 0 {
 						err = conn.ReadPacket(q)
 					} else {
-						err = q.UnPack(p.link.B, p.threshold)
+						err = q.UnPack(p.link.B, th)
 					}
 					if err != nil {
 						c.Fail("frame.roundtrip", "unpack", "error", "%s: unpacking packet %d (id=%d len=%d threshold=%d) failed: %v", p.name, j, s.id, len(s.data), p.threshold, err)
@@ -239,7 +262,11 @@ func scenarioStream(c *harness.Ctx) {
 		c.FoldBytes(wire)
 		rest := wire
 		for j, s := range p.pkts {
-			f, r, err := frame.Next(rest, p.threshold >= 0, p.threshold)
+			th := p.threshold
+			if p.switchAt > 0 && j >= p.switchAt {
+				th = p.threshold2
+			}
+			f, r, err := frame.Next(rest, th >= 0, th)
 			if err != nil {
 				c.Fail("frame.conformance", "pack", "unparseable", "%s: frame %d (id=%d len=%d threshold=%d) rejected by the reference reader: %v", p.name, j, s.id, len(s.data), p.threshold, err)
 				return
@@ -249,7 +276,7 @@ func scenarioStream(c *harness.Ctx) {
 				return
 			}
 			switch {
-			case p.threshold < 0:
+			case th < 0:
 				pPlainBranch.Hit()
 			case f.Compressed:
 				pCompressedBranch.Hit()
@@ -419,3 +446,5 @@ func varintLen(b []byte) (int32, int, error) {
 	}
 	return 0, 0, io.ErrUnexpectedEOF
 }
+
+var pThresholdSwitch = simrt.NewProbe("stream.threshold.changed.mid-connection(both.ends)")
